@@ -279,6 +279,21 @@ Outcome run_proto(const Plan & plan, const RunCtx & ctx)
         if (ok) {
           if (!p.ok && !p.budget && !transient)
             violation(oi, "initialize-accepted-invalid", "initialize() succeeded but a pristine instance with the same configuration refuses: " + p.err);
+          // independent of any other instance: configurations that are invalid by construction, whoever is asked
+          {
+            std::string why;
+            if (m.cat != 1 && m.cat != 2) why = "no decay category";
+            else if (m.iso.empty()) why = "no isotope";
+            else if (m.cat == 1 && m.mode == 0) why = "DBD category without a DBD mode";
+            else if (m.cat == 1 && m.level < 0) why = "DBD category with a negative daughter level";
+            else if (m.cat == 1 && !std::isnan(m.emin) && !std::isnan(m.emax) && m.emin >= m.emax) why = "DBD energy range with min >= max";
+            else if (m.cat == 1 && m.mode < 21 && mode_supports_window(m.mode)) {
+              // the effective window (after defaults were filled in) as the public observer reports it
+              const bxdecay0::bbpars & bp = g.get_bb_params();
+              if (!(bp.ebb1 < bp.ebb2)) why = "empty effective energy window [" + std::to_string(bp.ebb1) + ", " + std::to_string(bp.ebb2) + "] MeV";
+            }
+            if (!why.empty() && !transient) violation(oi, "initialize-accepted-invalid", "initialize() succeeded on a configuration that is invalid by construction: " + why + " [cfg " + m.key() + "]");
+          }
           m.init = true; m.ver_known = false; outcome = "ok";
           if (last[gi].rfind("init-failed", 0) == 0) out.ctr["probe_initialize_succeeds_after_failed_initialize"]++;
         } else {
@@ -393,10 +408,13 @@ Op noise_op(Rng & r, int g)
   }
   if (d < 50) return mk("set_label", {g}, {r.pick(labels)});
   if (d < 58) {
-    u64 e = r.below(4);
+    u64 e = r.below(7);
     if (e == 0) { i64 lo = r.range(0, 1500); return mk("set_range", {g, lo, lo + r.range(200, 1500)}); }
     if (e == 1) return mk("set_range", {g, 2000, 1000});
     if (e == 2) return mk("set_range", {g, r.range(0, 1000), -1});
+    if (e == 3) return mk("set_range", {g, -1, r.pick(std::vector<i64>{1, 300, 1500, 4000, 100000})});           // upper bound only
+    if (e == 4) return mk("set_range", {g, r.pick(std::vector<i64>{4000, 4299, 4300, 4301, 4500, 5000, 100000}), -1}); // lower bound only, at or above anything a decay can release
+    if (e == 5) { i64 v = r.range(1, 3000); return mk("set_range", {g, v, v}); }                                   // min == max
     return mk("set_range", {g, -1, -1});
   }
   if (d < 61) return mk("set_ver", {g}, {r.chance(0.5) ? "1.0.0" : ""});
@@ -415,6 +433,12 @@ Target pick_target(Rng & r)
   Target t; t.cat = 2; t.level = 0; t.mode = 0; t.lo = t.hi = -1; t.ga_nuc = -1;
   u64 d = r.below(100);
   if (d < 40 || dbd_cheap().empty()) { t.iso = r.pick(bkg_names()); }
+  else if (d >= 68 && d < 75 && !dbd_quad().empty()) {
+    // quadrature-based modes (the ones an energy window applies to): milliseconds per initialise
+    const DbdEntry & e = r.pick(dbd_quad());
+    t.cat = 1; t.iso = e.nuc; t.level = e.level; t.mode = e.mode;
+    if (mode_supports_window(e.mode) && e.e0_keV > 300 && r.chance(0.6)) { t.lo = r.range(0, (i64)e.e0_keV / 2); t.hi = t.lo + (i64)e.e0_keV / 2; }
+  }
   else if (d < 75) {
     const DbdEntry & e = r.pick(dbd_cheap());
     t.cat = 1; t.iso = e.nuc; t.level = e.level; t.mode = e.mode;
@@ -453,11 +477,29 @@ Plan gen_proto(u64 seed, u64 idx, const RunCtx & ctx)
   bool faults = (idx % 2) == 1;
   p.hdr["faults"] = faults ? "1" : "0";
   int cycles = (int)r.range(1, ctx.tier == "thorough" ? 5 : 3);
+  Target prev[2]; bool has_prev[2] = {false, false};
   for (int c = 0; c < cycles; c++) {
     int g = r.chance(0.85) ? 0 : 1;
     auto noise = [&](double prob) { while (r.chance(prob)) p.ops.push_back(noise_op(r, r.chance(0.8) ? g : 1 - g)); };
     noise(0.3);
     Target t = pick_target(r);
+    // the next life of an object is often a near-copy of its previous one: same decay with another window (or none),
+    // or another level of the same nuclide and mode - what a carried-over piece of the previous life would not notice
+    if (has_prev[g] && prev[g].cat == 1 && prev[g].ga_nuc < 0 && r.chance(0.4)) {
+      t = prev[g];
+      const DbdEntry * e = nullptr;
+      for (auto & x : dbd_catalogue()) if (x.nuc == t.iso && x.level == t.level && x.mode == t.mode) { e = &x; break; }
+      u64 k = r.below(3);
+      if (k == 0 && e && mode_supports_window(t.mode) && e->e0_keV > 300) {
+        if (t.lo >= 0 && r.chance(0.4)) t.lo = t.hi = -1;
+        else { t.lo = r.range(0, (i64)e->e0_keV / 2); t.hi = t.lo + r.range((i64)e->e0_keV / 4, (i64)e->e0_keV / 2); }
+      } else if (k == 1) {
+        std::vector<const DbdEntry *> alt;
+        for (auto & x : dbd_catalogue()) if (x.nuc == t.iso && x.mode == t.mode && x.level != t.level && x.qng_calls <= 1500) alt.push_back(&x);
+        if (!alt.empty()) { t.level = r.pick(alt)->level; t.lo = t.hi = -1; }
+      }
+    }
+    prev[g] = t; has_prev[g] = true;
     if (t.ga_nuc >= 0) {
       // the durable environment: good dataset, torn dataset, or none at all (the shipped default)
       u64 e = r.below(10);
@@ -474,7 +516,8 @@ Plan gen_proto(u64 seed, u64 idx, const RunCtx & ctx)
       else if (b == 1) p.ops.push_back(mk("set_cat", {g, 0}));
       else if (b == 2) p.ops.push_back(mk("set_level", {g, t.cat == 1 ? 16 : -1}));
       else if (b == 3) p.ops.push_back(mk("set_mode", {g, t.cat == 1 ? 0 : 4}));
-      else p.ops.push_back(mk("set_range", {g, 2000, 1000}));
+      else if (r.chance(0.5)) p.ops.push_back(mk("set_range", {g, 2000, 1000}));
+      else p.ops.push_back(mk("set_range", {g, r.pick(std::vector<i64>{4300, 4500, 5000, 100000}), -1}));
       p.ops.push_back(mk("init", {g, (i64)r.below(1000), -1, -1, -1}));
       if (r.chance(0.3)) p.ops.push_back(mk("shoot", {g, (i64)r.below(8), (i64)r.below(NS), -1}));
       // repair: re-emit the whole target configuration
